@@ -46,6 +46,9 @@ func (ps *pathSolver) check(st *State, pc *pcList, c *term.Node) (smt.Result, *t
 	defer func() { ps.Queries++; ps.Time += time.Since(t0) }()
 	var lits []string
 	for q := pc; q != nil; q = q.prev {
+		if q.implied {
+			continue
+		}
 		lits = append(lits, ps.printer.Define(q.cond))
 	}
 	lits = append(lits, ps.printer.Define(c))
@@ -239,41 +242,41 @@ func (st *State) submit(grp []Obligation) {
 
 // InstanceResult collects what one harness instance did.
 type InstanceResult struct {
-	Instance    *Instance
-	Paths       int
-	Infeasible  int
-	Forks       int
-	Merges      int
-	LazyMerges  int
-	MergeAborts int
-	Steps       int64
-	VCs         int
-	TrivialVCs  int
-	FeasUnknown int
-	FeasQueries int
-	FeasSecs    float64
-	SolverSecs  float64
-	CoverHit    map[string]bool
-	CoverSeen   map[string]bool
-	Results     []VCResult
-	CertainFail []CertainFailure // panics / assertion failures that are certain on a path
-	Errors      []string         // unsupported constructs, unwinding failures
-	Leaks       []string
-	WriteLog    []string
-	Notes       []string
-	Funcs       map[string]int // functions executed -> call count
-	Wall        float64
-	MaxLoop     int
-	NodeCount   int
-	keepScripts bool
-	sem         chan struct{}
-	Goroutines  int
+	Instance     *Instance
+	Paths        int
+	Infeasible   int
+	Forks        int
+	Merges       int
+	LazyMerges   int
+	MergeAborts  int
+	Steps        int64
+	VCs          int
+	TrivialVCs   int
+	FeasUnknown  int
+	FeasQueries  int
+	FeasSecs     float64
+	SolverSecs   float64
+	CoverHit     map[string]bool
+	CoverSeen    map[string]bool
+	Results      []VCResult
+	CertainFail  []CertainFailure // panics / assertion failures that are certain on a path
+	Errors       []string         // unsupported constructs, unwinding failures
+	Leaks        []string
+	WriteLog     []string
+	Notes        []string
+	Funcs        map[string]int // functions executed -> call count
+	Wall         float64
+	MaxLoop      int
+	NodeCount    int
+	keepScripts  bool
+	sem          chan struct{}
+	Goroutines   int
 	AbortReasons map[string]int
-	Asserts     int
-	LockOps     int
-	wg          sync.WaitGroup
-	mu          sync.Mutex
-	SamplePath  map[string]uint64
+	Asserts      int
+	LockOps      int
+	wg           sync.WaitGroup
+	mu           sync.Mutex
+	SamplePath   map[string]uint64
 }
 
 type CertainFailure struct {
